@@ -8,12 +8,12 @@ ID = "C08"
 LEVEL = "fault_enumeration"
 SHARDS = {"quick": 16, "thorough": 16}
 RULE = (
-    "Scenarios = result value (scalar, list, None, numpy array, InMemoryPartition/OnDiskPartition, exception) x topology {one function; two functions producing byte-identical results; "
+    "Scenarios = result value (scalar, list, None, numpy array, InMemoryPartition/OnDiskPartition, exception, values larger than the whole memory cache) x topology {one function; two functions producing byte-identical results; "
     "caller -> callee; key override} x {no cache, cache}: a fixed canonical list plus Hypothesis-generated ones. For each scenario a dry run lists every mutating filesystem operation "
     "(mkdir, open for writing, rename/replace, remove) issued under the store while memoizing, and EVERY such operation is combined with every applicable variant: process death before the operation, "
     "right after it, after an open with the file left empty, after half of the bytes were written; ENOSPC reported by the operation, by the write after half of the bytes, or when the file is closed. "
     "Death = os._exit in a forked child (no finally blocks, no buffer flush). Oracle: afterwards, in a fresh process on the damaged store, three calls of every function of the scenario raise nothing "
-    "and return the correct value, and the second and third call run no body (memoization recovered); for reported errors the faulted call itself returns the correct value. "
+    "and return the correct value, and the second and third call run no body (memoization recovered); for reported errors the faulted call itself returns the correct value, and so do the same calls made twice more by the surviving process. "
     "Non-trivial = the fault lands on a data or pointer file (not only on a mkdir); distinct by (scenario, operation index, variant)."
 )
 ASSUMPTIONS = [
@@ -38,6 +38,9 @@ CANONICAL = [
     {"value": {"t": "nd", "dtype": "int64", "v": [1, 2, 3]}, "topology": "twin", "cache": True},
     {"value": {"t": "str", "v": "payload-abc"}, "topology": "chain", "cache": True},
     {"value": {"t": "odpart", "v": {"k": {"t": "int", "v": "5"}}}, "topology": "single", "cache": True},
+    # a result larger than the whole memory cache (0.5 MB), with and without a sibling producing the same bytes
+    {"value": {"t": "str", "n": 600000, "c": "B"}, "topology": "single", "cache": True},
+    {"value": {"t": "nd", "dtype": "int8", "n": 700000}, "topology": "twin", "cache": True},
 ]
 ACTIONS = {"single": [["cv", 1]], "twin": [["cv", 1], ["cv2", 1]], "chain": [["cc", 1]], "override": [["ck", 1]]}
 VERIFY = {"single": ["cv"], "twin": ["cv", "cv2"], "chain": ["cc", "cv"], "override": ["ck"]}
@@ -72,7 +75,12 @@ def _child(spec):
     if spec.get("plan") is not None or spec.get("observe"):
         with faults.Controller(spec["store"], spec.get("plan")) as ctl:
             do_calls()
-        return {"results": res, "events": ctl.events, "fired": ctl.fired}
+        n_faulted = len(res)
+        if spec.get("plan") is not None and spec.get("again"):
+            # the process survived a reported error: the same calls again, in the same process, without faults
+            for _ in range(spec["again"]):
+                do_calls()
+        return {"results": res[:n_faulted], "again": res[n_faulted:], "events": ctl.events, "fired": ctl.fired}
     do_calls()
     return {"results": res}
 
@@ -84,7 +92,13 @@ def _view(r):
     if isinstance(r, list):
         return [_view(x) for x in r]
     if hasattr(r, "tolist"):
+        if getattr(r, "size", 0) > 1000:
+            import hashlib
+            return {"nd-sha256": hashlib.sha256(r.tobytes()).hexdigest(), "dtype": str(r.dtype), "size": int(r.size)}
         return {"nd": r.tolist()}
+    if isinstance(r, (str, bytes)) and len(r) > 1000:
+        import hashlib
+        return {"sha256": hashlib.sha256(r if isinstance(r, bytes) else r.encode("utf-8")).hexdigest(), "len": len(r)}
     return r
 
 
@@ -138,7 +152,8 @@ def run_point(scn, pt, scratch, second=None):
     try:
         store = os.path.join(d, "store")
         spec = {"store": store, "base": d, "cache": scn["cache"], "value": scn["value"], "calls": ACTIONS[scn["topology"]],
-                "plan": {"event": pt["event"], "variant": pt["variant"], "k": pt["k"]}}
+                "plan": {"event": pt["event"], "variant": pt["variant"], "k": pt["k"]},
+                "again": 0 if pt["variant"].startswith("crash") else 2}
         r = proc.forkrun(_child, spec, crash_code=faults.CRASH_CODE)
         label = "%s at operation %d (%s on %s)" % (pt["variant"], pt["event"], pt["on"], pt["rel_kind"])
         crashed = bool(r.get("crashed"))
@@ -155,6 +170,19 @@ def run_point(scn, pt, scratch, second=None):
                 elif not _same(res.get("ok"), want["ok"]) or "exc" in res:
                     out.violation("%s: call %s gave %r during the reported I/O error, expected %r" % (label, res["fn"], {k: res[k] for k in res if k != "runs"}, want["ok"]),
                                   symptom="faulted-call-wrong", variant=pt["variant"], on=pt["rel_kind"])
+            # ... and so must the same calls made again by the surviving process (twice)
+            for i, res in enumerate(r.get("again", [])):
+                want = _expected(scn, res["fn"])
+                if "exc" in want:
+                    if res.get("exc") != want["exc"] and res.get("exc") != "MementoException":
+                        out.violation("%s: the surviving process called %s again and got %r, expected exception %s" % (label, res["fn"], {k: res[k] for k in res if k != "runs"}, want["exc"]),
+                                      symptom="same-process-call-wrong", variant=pt["variant"], on=pt["rel_kind"])
+                elif "exc" in res:
+                    out.violation("%s: the surviving process called %s again and it raised %s: %s" % (label, res["fn"], res["exc"], res["msg"]),
+                                  symptom="same-process-call-raised", variant=pt["variant"], on=pt["rel_kind"], exc=res["exc"])
+                elif not _same(res.get("ok"), want["ok"]):
+                    out.violation("%s: the surviving process called %s again and got %r, expected %r" % (label, res["fn"], res.get("ok"), want["ok"]),
+                                  symptom="same-process-call-wrong", variant=pt["variant"], on=pt["rel_kind"])
         # afterwards: fresh process, no faults, three calls of every function
         calls = [[f, 1] for f in VERIFY[scn["topology"]] for _ in range(3)]
         vspec = {"store": store, "base": d, "cache": scn["cache"], "value": scn["value"], "calls": calls}
